@@ -1198,6 +1198,13 @@ class Interp:
                 return [(Const(getattr(_bisect, f.attr if isinstance(f, ast.Attribute) else f.id)(*[a.v for a in args])), st)]
             except Exception as ex:
                 return [(Exc(type(ex).__name__, e), st)]
+        if isinstance(f, ast.Attribute) and isinstance(f.value, ast.Name) and f.value.id == "textwrap" and "textwrap" not in st.env \
+                and f.attr in ("indent", "dedent") and all(isinstance(a, Const) and isinstance(a.v, str) for a in list(args) + list(kw.values())):
+            import textwrap as _tw
+            try:
+                return [(Const(getattr(_tw, f.attr)(*[a.v for a in args], **{k: v.v for k, v in kw.items()})), st)]
+            except Exception as ex:
+                return [(Exc(type(ex).__name__, e), st)]
         if isinstance(f, ast.Attribute) and isinstance(recv, Const) and isinstance(recv.v, (_re.Pattern, _re.Match)):
             ok_ = ("match", "search", "fullmatch", "sub", "findall", "split", "finditer") if isinstance(recv.v, _re.Pattern) else (
                 "group", "groups", "start", "end", "span", "groupdict")
@@ -1231,6 +1238,7 @@ class Interp:
 
     def inline(self, func, e, args, kw, st, self_param=None):
         if self.depth >= self.max_depth:
+            self.unknowns.append("depth")
             return [(Unknown("depth"), st)]
         static = func.cls is not None and "staticmethod" in getattr(func, "decorators", ())
         sub = Interp(func.node, (func.cls.name if func.cls and not static else (self.clsname if self_param else None)), self.oracle, self.max_paths,
@@ -1261,9 +1269,22 @@ class Interp:
             if k.startswith("@"):
                 inner.env[k] = v  # scenario state kept by oracles (cursors, buffers), pending exception values
         out = []
+        is_gen = any(isinstance(n_, (ast.Yield, ast.YieldFrom)) for n_ in ast.walk(func.node)) and getattr(self, "yield_hook", None) is None
+        n0 = len(st.events)
         for p in sub.run(env, inner):
             s2 = st.copy()
             s2.events = list(p.events)
+            if is_gen and p.kind == "return":
+                # a generator function called for its values (`"".join(self.parts())`, `list(...)`, a for loop): the values it yields
+                ys = [ev for ev in s2.events[n0:] if ev[0] == "yield"]
+                s2.events = s2.events[:n0] + [ev for ev in s2.events[n0:] if ev[0] != "yield"]
+                if all(isinstance(ev[1], Const) for ev in ys):
+                    p.value = Const([ev[1].v for ev in ys])
+                elif all(isinstance(ev[1], (Const, Tup)) and (isinstance(ev[1], Const) or all(isinstance(x_, Const) for x_ in ev[1].items)) for ev in ys):
+                    p.value = Const([ev[1].v if isinstance(ev[1], Const) else tuple(x_.v for x_ in ev[1].items) for ev in ys])
+                else:
+                    self.unknowns.append("generator")
+                    p.value = Unknown("generator")
             if caller_self and callee_self:
                 for k, v in p.env.items():
                     if k.startswith(callee_self + "."):
